@@ -13,6 +13,7 @@
 import IpldModel.Lemmas.TypedAssemblerExamples
 import IpldModel.Lemmas.TypedAssemblerNode
 import IpldModel.Lemmas.TypedAssemblerRefine
+import IpldModel.Lemmas.TypedAssemblerReset
 import IpldModel.Lemmas.SchemaType
 namespace Ipld.Props.C12
 open Ipld Ipld.Asm Ipld.TAsm
@@ -453,6 +454,76 @@ example :
 example :
     (TAsm.run .gen (TAsm.init exMapTy) exDupViaKeyAsm).2 = [.ok, .ok, .ok, .ok, .ok] ∧
     (Asm.run (Asm.init .any) exDupViaKeyAsm).2 = [.ok, .ok, .ok, .ok, .err .repeatedKey] := by decide
+
+/-! ### (g) `Reset` makes the builder new; optional fields -/
+
+/-- **typed_reset_is_init.**  `Reset()` is accepted in any state - part of the way through a history, after a refused
+    call, after `Build`, after a call that panicked (`b`: the calls since then are being passed over), in a state an engine
+    with `anPartial` left half done - and what follows is answered, call for call, as a NEW builder of the same type
+    answers it: the outcomes are `ok` for the reset followed by those of the rest run from `init`, the final state (hence
+    `Build`) is that of the rest run from `init`.  Every engine. -/
+theorem typed_reset_is_init (e : Engine) (b : Bool) (s : TAsm.St) (h : List Call) :
+    (TAsm.runC e b s (.reset :: h)).1 = (TAsm.runC e false (TAsm.init s.ty) h).1 ∧
+    (TAsm.runC e b s (.reset :: h)).2 = .ok :: (TAsm.runC e false (TAsm.init s.ty) h).2 := by
+  rw [runC_reset]; exact ⟨rfl, rfl⟩
+
+/-- A history without resets is the history of `TAsm.run` (everything above is about it): same state, same answers. -/
+theorem typed_runC_without_reset (e : Engine) (s : TAsm.St) (ops : List Op) :
+    TAsm.runC e false s (ops.map .op) = TAsm.run e s ops := runC_ops e s ops
+
+/-- **typed_reset_history_result.**  The state a history with at least one `Reset` ends in - so the node `Build`
+    returns - is the one reached by running, on a new builder, only the calls made after the LAST reset (`tailOps`):
+    nothing of what went before a reset shows, whatever it was (complete, cut off, refused calls, misuse, a wedged generated
+    builder).  With `typed_history_result` applied to that tail: the node built holds exactly the entries accepted after the
+    last reset, in call order.  Every engine. -/
+theorem typed_reset_history_result (e : Engine) (b : Bool) (s : TAsm.St) (h : List Call)
+    (hr : hasReset h = true) :
+    (TAsm.runC e b s h).1 = (TAsm.run e (TAsm.init s.ty) (tailOps h)).1 ∧
+    TAsm.build (TAsm.runC e b s h).1 = TAsm.build (TAsm.run e (TAsm.init s.ty) (tailOps h)).1 := by
+  have := runC_tail e b s h hr
+  exact ⟨this, by rw [this]⟩
+
+/-- **typed_built_conforms_with_resets** - (d) at full strength for histories with resets: whatever `Build` returns after
+    any history of assembler calls and resets on a fresh builder conforms to the type, carries no key twice and is in
+    canonical form. -/
+theorem typed_built_conforms_with_resets {e : Engine} (he : e.keyAsmDupMapKey = false) {ty : Ty} (hwf : ty.wf = true)
+    (hpl : plain ty = true) (h : List Call) {v : TL}
+    (hb : TAsm.build (TAsm.runC e false (TAsm.init ty) h).1 = some v) :
+    conforms ty false v = true ∧ TAsm.NoDup v ∧ Schema.normalize ty v = v := by
+  have hi : TAsm.Inv (TAsm.runC e false (TAsm.init ty) h).1 := runC_inv he false _ h (init_inv hwf hpl)
+  have hg := build_good hi hb
+  rw [runC_ty] at hg
+  exact ⟨hg.conf, hg.nodup, hg.canon⟩
+
+/-- a first history cut off inside `b`'s list, `Reset`, then `{"a":5}`: every call after the reset accepted, the node is
+    `{a:5, b:absent}` - nothing of the first history shows; the same on generated code after the refused node that
+    wedges it (the call after the refusal is not claimed, the reset makes the builder new) -/
+example :
+    (TAsm.runC .bindnode false (TAsm.init exStructTy)
+      ((exStructHistory.take 5).map .op ++ [.reset] ++ exStructShort.map .op)).2
+      = [.ok, .ok, .err .wrongKind, .ok, .ok, .ok, .ok, .ok, .ok, .ok] ∧
+    TAsm.build (TAsm.runC .bindnode false (TAsm.init exStructTy)
+      ((exStructHistory.take 5).map .op ++ [.reset] ++ exStructShort.map .op)).1
+      = some (.map (.cons [97] (.int 5) (.cons [98] .absent .nil))) ∧
+    (TAsm.runC .gen false (TAsm.init (.list .int false))
+      (exRefusedNode.map .op ++ [.reset] ++ (exRefusedNode.drop 1).map .op)).2
+      = [.err .wrongKind, .panic, .ok, .ok, .ok, .ok, .ok] ∧
+    TAsm.build (TAsm.runC .gen false (TAsm.init (.list .int false))
+      (exRefusedNode.map .op ++ [.reset] ++ (exRefusedNode.drop 1).map .op)).1
+      = some (.list (.cons (.int 5) .nil)) := by decide
+
+example : tailOps ((exStructHistory.take 5).map .op ++ [.reset] ++ exStructShort.map .op) = exStructShort := by decide
+
+/-- optional fields (`b` of the example struct is optional and nullable): never supplied it is `absent` in the node,
+    supplied as null it is null; a `Finish` while the REQUIRED field `a` is missing is refused and the struct assembler
+    stays where it was - the history goes on and builds the node -/
+example :
+    (TAsm.run .bindnode (TAsm.init exStructTy)
+      [.beginMap 0, .assembleEntry [98], .assign .null, .finish, .assembleEntry [97], .assign (.int 5), .finish]).2
+      = [.ok, .ok, .ok, .err .other, .ok, .ok, .ok] ∧
+    TAsm.build (TAsm.run .bindnode (TAsm.init exStructTy)
+      [.beginMap 0, .assembleEntry [98], .assign .null, .finish, .assembleEntry [97], .assign (.int 5), .finish]).1
+      = some (.map (.cons [97] (.int 5) (.cons [98] .null .nil))) := by decide
 
 /-! ### non-vacuity of (a)-(e) on one history per container kind -/
 
